@@ -183,7 +183,8 @@ class Traffic:
             fr[-1] = fr[-1] + bytes([0xFF] * (8 - len(fr[-1])))
         if lossy and len(fr) > 1:
             del fr[r.randrange(1, len(fr))]
-        return [(pgn, 6, src, 255, f) for f in fr]
+        prio = r.choice([6, 6, 3, 2, 7])          # the priority may change from message to message on one stream
+        return [(pgn, prio, src, 255, f) for f in fr]
 
     def proprietary(self, src):
         """a pre-assembled payload of a multi-definition PGN without fallback: own match values, a sibling's, or none"""
@@ -263,7 +264,7 @@ def gen_history(rnd, db, n_steps, sources=(1, 2, 7), claims="mixed", junk=0.15, 
             fr = t.fast(src)
             payload = b"".join(f[2:] if i == 0 else f[1:] for i, (_, _, _, _, f) in enumerate(fr))
             payload = payload[:fr[0][4][1]]
-            h.append((fr[0][0], 6, src, 255, payload, True, w))
+            h.append((fr[0][0], fr[0][1], src, 255, payload, True, w))
     return h[:n_steps]
 
 
@@ -298,6 +299,9 @@ CONFIGS = [
     {"map": True, "exclude": [60928], "inm": ["Garmin"]}, {"include": [127508], "exm": ["Maretron"]},
     {"units": {"TEMPERATURE": "C"}}, {"units": {"PRESSURE": "kPa", "TEMPERATURE": "C", "SPEED": "mph", "ANGLE": "deg"}}, {"units": {"TEMPERATURE": "f", "ANGLE": "DEG", "SPEED": "kts", "PRESSURE": "Bar"}}, {"units": {"PRESSURE": "psi", "TEMPERATURE": "kelvin"}},
     {"dump": True}, {"dump": True, "dumppgns": [127508]}, {"dump": True, "dumppgns": ["batteryStatus"]}, {"dump": True, "dumppgns": ["vesselHeading", 130312], "map": True},
+    # id filters on ONE definition of a multi-definition PGN of the traffic (126720: airmarAddressableMultiFrame next to the catch-all definition)
+    {"exclude": ["airmarAddressableMultiFrame"]}, {"include": ["airmarAddressableMultiFrame", 127250]}, {"exclude": ["0x1ef00ManufacturerProprietaryFastPacketAddressed", "lowranceTemperature"]},
+    {"dump": True, "dumppgns": ["airmarAddressableMultiFrame"]}, {"dump": True, "dumppgns": ["0x1ef00ManufacturerProprietaryFastPacketAddressed", 127508]},
 ]
 
 
@@ -461,7 +465,7 @@ def monitor_isolation(ctx, n_hist=8, steps=40):
     rnd = random.Random(ctx["seed"] + 64)
     n = 0
     for trial in range(n_hist):
-        cfgs = [rnd.choice(CONFIGS[:1] + CONFIGS[14:16] + CONFIGS[21:23]) for _ in range(3)]
+        cfgs = [rnd.choice(CONFIGS[:1] + CONFIGS[14:16] + CONFIGS[21:23] + CONFIGS[29:32]) for _ in range(3)]
         cfgs = [c for c in cfgs if not (c.get("exclude") and c.get("include"))]
         # (no address-claim traffic at all: the probes compare with a fresh decoder, which has no identities)
         hs = [[x for x in gen_history(rnd, db, steps, claims="none") if x[0] != 60928] for _ in cfgs]
@@ -505,6 +509,14 @@ def monitor_isolation(ctx, n_hist=8, steps=40):
                 probe2 = t.proprietary(rnd.choice([1, 2, 7])) + (True, False)
                 if solo.feed(probe2)[0] != fresh.feed(probe2)[0]:
                     return {"kind": "probe", "config": c, "history": ser_history(hs[j] + [probe2]), "what": f"a proprietary message of PGN {probe2[0]} decodes differently after the history than on a fresh decoder"}, n
+            # pre-assembled messages of the multi-definition fast PGNs of the traffic (an earlier message of ANOTHER definition of the
+            # same PGN that was filtered out or ignored must not influence them)
+            for _ in range(6):
+                fr = t.fast(rnd.choice([1, 2, 7]), pgn=rnd.choice([126720, 130816]))
+                payload = b"".join(f[2:] if i == 0 else f[1:] for i, (_, _, _, _, f) in enumerate(fr))[:fr[0][4][1]]
+                probe3 = (fr[0][0], fr[0][1], fr[0][2], 255, payload, True, False)
+                if solo.feed(probe3)[0] != fresh.feed(probe3)[0]:
+                    return {"kind": "probe", "config": c, "history": ser_history(hs[j] + [probe3]), "what": f"a pre-assembled message of PGN {probe3[0]} decodes differently after the history than on a fresh decoder with the same configuration"}, n
             src = rnd.choice([1, 2, 7])
             fr = t.fast(src, pgn=128275)
             key = f"128275_{src}_255"
